@@ -51,6 +51,7 @@ func init() {
 		Level: "exploration",
 		Rule: "sender: every subset of the settable attributes (with and without AT_MAC, padded and unpadded values, prior AT_MAC absent / zero / garbage) built through the API × keys of length {1,16,31,32,33,64,65,100} × patterns: mac := CalcEapAkaPrimeAtMAC(k); SetAttr(AT_MAC, mac); Marshal; the reference computes HMAC-SHA-256-128 (own HMAC) over the wire bytes with the MAC field zeroed and must agree, independently of the prior AT_MAC value. " +
 			"receiver: the library's own wire packets and reference-encoded well-formed packets in every attribute order (all permutations of <= 5 attributes) are decoded and CalcEapAkaPrimeAtMAC(k) must equal the transmitted MAC. sensitivity: every single octet of the wire packet outside the MAC value (⊕0x01, ⊕0x80) that still decodes, and every single-octet change of the key, must change the computed value. " +
+			"Sizes: AT_KDF_INPUT of every length 0..1016 on the sender side; on the receiver side packets from the independent encoder whose attribute boundaries fall on every word offset 11..1100 (filler attributes of skippable types, ascending) with two more attributes behind. " +
 			"Receiver-side mismatches are attributed (re-serialisation ≠ received octets: order / reserved / padding) before being reported. distinct_nontrivial = distinct (packet, key) pairs on which sender and reference agreed",
 		Assumptions: []string{"SHA-256 compression is a shared primitive; the HMAC construction, truncation, MAC-field zeroing and octet coverage are independent"},
 		Run:         runC15,
@@ -221,7 +222,40 @@ func c15AllTypes(c *engine.Ctx) {
 	}
 }
 
+// c15Sizes: long attributes and long packets. Sender: AT_KDF_INPUT of every length the setter accepts (0..1016
+// octets). Receiver: packets from an independent encoder whose attribute boundaries fall on every word offset up to
+// 1100 words (4400 octets) — filler attributes of skippable types, in ascending type order so that the open order
+// finding does not apply — with two more attributes behind the boundary.
+func c15Sizes(c *engine.Ctx) {
+	for n := 0; n <= 1016; n++ {
+		if !c.Mine() {
+			continue
+		}
+		e := &ref.EAP{Code: 1, ID: uint8(n), Method: 50, Sub: 1, AKA: []ref.AKAAttr{{T: ref.AtRAND, V: univ.Pat(16, n)}, {T: ref.AtKDF, V: []byte{0, 1}}, {T: ref.AtKDFInput, V: univ.Pat(n, n+1)}}}
+		c15Sender(c, c15Case{K: "sender", Name: fmt.Sprintf("kdfinput=%d", n), E: e, KeyLen: 32, KeyPat: 2})
+	}
+	for total := 11; total <= 1100; total++ {
+		if !c.Mine() {
+			continue
+		}
+		ats := []ref.AKAAttr{{T: ref.AtRAND, V: univ.Pat(16, total)}, {T: ref.AtMAC, V: make([]byte, 16)}}
+		rest := total - 10
+		for t := uint8(130); rest > 0; t++ {
+			w := rest
+			if w > 255 {
+				w = 255
+			}
+			ats = append(ats, ref.AKAAttr{T: t, V: univ.Pat(4*w-2, int(t)+total)})
+			rest -= w
+		}
+		ats = append(ats, ref.AKAAttr{T: 140, V: univ.Pat(6, total)}, ref.AKAAttr{T: 141, V: univ.Pat(2, total+1)})
+		e := &ref.EAP{Code: 1, ID: uint8(total), Method: 50, Sub: 1, AKA: ats}
+		c15RefReceiver(c, e, fmt.Sprintf("boundary@%d words", total))
+	}
+}
+
 func runC15(c *engine.Ctx) {
+	c15Sizes(c)
 	c15Foreign(c)
 	c15AllTypes(c)
 	c15Lookalike(c)
